@@ -75,6 +75,7 @@ def seth_hill(S, m):
 def plan(tier, seed):
     shards = [("grain", tier, ci, u0) for ci in range(len(CELLS)) for u0 in range(4)]
     shards += [("map", tier, ci) for ci in range(len(CELLS))]
+    shards += [("grainsinos", tier, ci) for ci in range(len(CELLS))]
     k = seed % len(shards)
     return shards[k:] + shards[:k]
 
@@ -284,6 +285,30 @@ def _run_map(desc):
                                                                            "max_diff_crystal": float(np.abs(got_c - want_c).max())})
             sh.evaluations += 1
             sh.nontrivial += 1
+    # request histories on ONE map: the four strain maps read in every order (24); afterwards each is what a fresh map gives when it is
+    # the only thing read, eps_sample is the per-grain strain, hydro + devia = sample
+    names4 = ("eps_sample", "eps_crystal", "eps_hydro", "eps_devia")
+    phases_h = {0: ucm.unitcell(cell, "P")}
+    with contextlib.redirect_stdout(io.StringIO()):
+        alone = {nm: np.array(getattr(tm.TensorMap(maps={"UBI": ubB.copy(), "phase_ids": np.zeros(shape, int)}, phases=phases_h), nm)) for nm in names4}
+    per_grain = np.array([gm.grain(u_).eps_sample_matrix(cell, 0.5) for u_ in ubB.reshape(-1, 3, 3)]).reshape(shape + (3, 3))
+    if np.abs(alone["eps_sample"] - per_grain).max() > 1e-10 or np.abs(alone["eps_hydro"] + alone["eps_devia"] - alone["eps_sample"]).max() > 1e-12:
+        sh.violation("TensorMap.eps:hydro-plus-devia-is-not-the-sample-strain", {"kind": "map", "cell": cell, "shape": list(shape), "seed": seed_of()}, {})
+    for perm in itertools.permutations(names4):
+        with contextlib.redirect_stdout(io.StringIO()):
+            T = tm.TensorMap(maps={"UBI": ubB.copy(), "phase_ids": np.zeros(shape, int)}, phases=phases_h)
+            for nm in perm:
+                getattr(T, nm)
+            after = {nm: np.array(getattr(T, nm)) for nm in names4}
+        # (one map may be derived from another that is already cached: agreement to rounding, 1e-12, not bit for bit)
+        badn = [nm for nm in names4 if after[nm].shape != alone[nm].shape or not np.abs(after[nm] - alone[nm]).max() <= 1e-12]
+        if badn:
+            sh.violation("TensorMap.%s:depends-on-which-strain-maps-were-read-before" % badn[0],
+                         {"kind": "map", "cell": cell, "shape": list(shape), "seed": seed_of(), "history": ["read " + nm for nm in perm]},
+                         {"max_diff": float(np.abs(after[badn[0]] - alone[badn[0]]).max())})
+            break
+        sh.evaluations += 1
+        sh.nontrivial += 1
     # two maps made WITHOUT a phase table (as from_ubis makes them), each told its reference cell afterwards by item assignment: every
     # map is measured against its own cell, whichever was set up last
     cell_other = [cell[0] * 1.1, cell[1] * 1.1, cell[2] * 0.93] + list(cell[3:])
@@ -354,8 +379,67 @@ def warm():
     _run_map(("map", "quick", 4))
 
 
+def _run_grainsinos(desc):
+    """TensorMap.from_grainsinos: maps assembled from four GrainSinograms of two phases (reconstructions as separate blocks of an 8x8 frame
+    ): in every voxel the map strain is the per-grain strain of the grain that owns the voxel and the phase is that
+    grain's - for every way the grains may be numbered (unique ids, ids restarting in each phase, descending, all equal, none)"""
+    _, tier, ci = desc
+    from ImageD11 import grain as gm, unitcell as ucm
+    from ImageD11.sinograms import tensor_map as tm
+    from ImageD11.sinograms.dataset import DataSet
+    from ImageD11.sinograms.sinogram import GrainSinogram
+    import io, contextlib
+    sh = Shard()
+    cells = [CELLS[ci], CELLS[(ci + 2) % len(CELLS)]]
+    phases = [ucm.unitcell(cells[0], "P", name="first"), ucm.unitcell(cells[1], "P", name="second")]
+    St = stretches(tier)
+    R = rots(seed_of())
+    N = 8
+    blocks = [(slice(0, 3), slice(0, 3)), (slice(0, 3), slice(5, 8)), (slice(5, 8), slice(0, 3)), (slice(4, 8), slice(4, 8))]
+    weights = [1.0, 2.0, 3.0, 0.5]
+    for gids in ([0, 1, 2, 3], [0, 1, 0, 1], [3, 2, 1, 0], [5, 5, 5, 5], [7, 2, 11, 2], None):
+        for use_gids in (True, False):
+            grains, gss = [], []
+            for q in range(4):
+                ph = phases[q // 2]
+                F = np.dot(R[(q + 2) % len(R)], St[(3 + 2 * q) % len(St)])
+                ubi = np.dot(F, np.linalg.inv(ph.B.T)).T
+                g = gm.grain(ubi)
+                g.ref_unitcell = ph
+                if gids is not None:
+                    g.gid = gids[q]
+                ds = DataSet()
+                ds.ystep = 1.0
+                gs = GrainSinogram(g, ds)
+                rec = np.zeros((N, N))
+                rec[blocks[q]] = weights[q]
+                gs.recons["iradon"] = rec
+                grains.append(g); gss.append(gs)
+            case = {"kind": "grainsinos", "cell": CELLS[ci], "gids": gids, "use_gids": use_gids, "seed": seed_of()}
+            with contextlib.redirect_stdout(io.StringIO()):
+                T = tm.TensorMap.from_grainsinos(gss, method="iradon", use_gids=use_gids)
+                es = np.array(T.eps_sample)
+                T2 = tm.TensorMap.from_grainsinos(gss, method="iradon", use_gids=use_gids)
+                ec = np.array(T2.eps_crystal)
+            worst, nvox = 0.0, 0
+            for q, (g, gs) in enumerate(zip(grains, gss)):
+                cellq = cells[q // 2]
+                ws, wc = g.eps_sample_matrix(cellq, 0.5), g.eps_grain_matrix(cellq, 0.5)
+                for ri, rj in zip(*np.nonzero(gs.recons["iradon"])):
+                    mi, mj, mk = tm.TensorMap.recon_index_to_map(ri, rj, N)
+                    worst = max(worst, float(np.abs(es[mi, mj, mk] - ws).max()), float(np.abs(ec[mi, mj, mk] - wc).max()))
+                    nvox += 1
+            if not worst <= 1e-10:
+                sh.violation("TensorMap.from_grainsinos:voxel-strain-is-not-that-of-the-grain-owning-the-voxel", case, {"max_diff": worst})
+            sh.evaluations += nvox
+            sh.nontrivial += nvox
+            sh.outcomes.add(("grainsinos", str(gids), use_gids))
+    sh.sample(case, limit=1)
+    return sh
+
+
 def run_shard(desc):
-    return {"grain": _run_grain, "map": _run_map}[desc[0]](desc)
+    return {"grain": _run_grain, "map": _run_map, "grainsinos": _run_grainsinos}[desc[0]](desc)
 
 
 def replay(case):
@@ -365,6 +449,9 @@ def replay(case):
         r = _run_grain(("grain", "thorough", ci, case["ref_orientation"]))
         v = [x for x in r.violations if x["case"].get("stretch") == case["stretch"] and x["case"].get("rotation") == case["rotation"]
              and x["case"].get("m") == case["m"]]
+    elif case["kind"] == "grainsinos":
+        r = _run_grainsinos(("grainsinos", "thorough", CELLS.index(case["cell"])))
+        v = [x for x in r.violations if x["case"]["gids"] == case["gids"] and x["case"]["use_gids"] == case["use_gids"]]
     else:
         r = _run_map(("map", "thorough", CELLS.index(case["cell"])))
         v = r.violations
